@@ -71,6 +71,24 @@ let rp_case line =
    | Changed r -> Buffer.add_string b "ok changed"; pr_tree b r);
   Buffer.contents b
 
+(* copy: <ntab> (<tree id> <tree>)*ntab <nsnap> <tree>*nsnap <nsrc> (<t> <id>)*nsrc <ndst> (<t> <id>)*ndst
+   -> `ok <n> (<t> <id>)*n` = copy_order (needed tid src dst snaps)   (t: 0 data, 1 tree) *)
+let cp_case line =
+  let t = toks line in
+  let ntab = ni t in
+  let tab = ntimes ntab (fun () -> let i = ni t in let tr = rd_tree t in (tr, n_of_int i)) in
+  let nsnap = ni t in
+  let snaps = ntimes nsnap (fun () -> rd_tree t) in
+  let rd_ix () = let n = ni t in ntimes n (fun () -> let ty = ni t in let i = ni t in ((if ty = 1 then Tree else Data), n_of_int i)) in
+  let src = rd_ix () in
+  let dst = rd_ix () in
+  let tid x = try List.assoc x tab with Not_found -> failwith "tree without id" in
+  let r = copy_order (needed tid src dst snaps) in
+  let b = Buffer.create 256 in
+  Buffer.add_string b (Printf.sprintf "ok %d" (List.length r));
+  List.iter (fun (ty, i) -> Buffer.add_string b (Printf.sprintf " %d %d" (match ty with Tree -> 1 | Data -> 0) (int_of_n i))) r;
+  Buffer.contents b
+
 let () =
   let mode = if Array.length Sys.argv > 2 then Sys.argv.(2) else "merge" in
-  main_loop (match mode with "rw" -> rw_case | "rp" -> rp_case | _ -> case)
+  main_loop (match mode with "rw" -> rw_case | "rp" -> rp_case | "cp" -> cp_case | _ -> case)
